@@ -18,10 +18,10 @@ INV = "Partition DegreeLaws Emit"
 def configs(tier):
     """(constants, name, harness, extra probe degrees)"""
     if tier == "thorough":
-        return [('Prefixes = FALSE Styles = {"lower", "upper", "mixed"} RefineMaxPar = 20 Refine2MaxPar = 4 Invalid = TRUE', "no prefixes, 3 case styles, refine on every rule", "c14_cubature", 3),
-                ('Prefixes = TRUE Styles = {"lower", "mixed"} RefineMaxPar = 6 Refine2MaxPar = 2 Invalid = TRUE', "tensor:/scalar: prefixes", "c14_cubature_prefix", 2)]
-    return [('Prefixes = FALSE Styles = {"lower", "upper"} RefineMaxPar = 5 Refine2MaxPar = 3 Invalid = TRUE', "no prefixes, 2 case styles", "c14_cubature", 1),
-            ('Prefixes = TRUE Styles = {"lower"} RefineMaxPar = 2 Refine2MaxPar = 0 Invalid = TRUE', "tensor:/scalar: prefixes", "c14_cubature_prefix", 1)]
+        return [('Prefixes = FALSE Styles = {"lower", "upper", "mixed"} RefineMaxPts = 30000 Invalid = TRUE', "no prefixes, 3 case styles, refined rules up to 30000 points", "c14_cubature", 3),
+                ('Prefixes = TRUE Styles = {"lower", "mixed"} RefineMaxPts = 2000 Invalid = TRUE', "tensor:/scalar: prefixes", "c14_cubature_prefix", 2)]
+    return [('Prefixes = FALSE Styles = {"lower", "upper"} RefineMaxPts = 3000 Invalid = TRUE', "no prefixes, 2 case styles", "c14_cubature", 1),
+            ('Prefixes = TRUE Styles = {"lower"} RefineMaxPts = 300 Invalid = TRUE', "tensor:/scalar: prefixes", "c14_cubature_prefix", 1)]
 
 
 def sig(c, r):
@@ -31,6 +31,7 @@ def sig(c, r):
         s["base"] = c["base"]
     else:
         s["why"] = c["why"]
+        s["core"] = c["core"]
     return s
 
 
